@@ -10,8 +10,10 @@ The theorems hold for every implementation and request with `Spec.covered I lr`.
 Everything is stated for all logical requests (any method, host, path, query, header lines, body), all rule sets (any
 routing table of `Model/Repo.lean`, any pipelines built from conditions and templates over the request view), any
 decoder library, both ways Envoy delivers a body, every log level the services run with (`LogLevel`, consulted by the
-`dump` middleware of the HTTP based services), all three entry points. Bodies are arbitrary byte strings: no statement
-and no function of the model bounds their length. The two side conditions are the decidable
+`dump` middleware of the HTTP based services), every `buffer_limit` block (`Limits`, consulted by the `net/http` servers
+of the HTTP based services for the head of a request: `reachesChain`, `listen`), all three entry points. Bodies are arbitrary
+byte strings: no statement and no function of the model bounds their length. Hosts are arbitrary byte strings, with or
+without a port. The two side conditions are the decidable
 predicates `Spec.covered` (a repaired implementation; a logical request: a path `net/http` accepts — octets that may
 not stand in a path only if the Envoy request context encodes them too, known finding `C13-envoy-raw-path-octets` —,
 header names that are tokens and none of the hop headers, at most one `Cookie` line) and `Spec.singleValued` (no upstream header collected twice — the
@@ -341,6 +343,119 @@ theorem c13_same_payload (cfg : Cfg) (pack : Bool) {I : Impl} (lr : LReq) (hwf :
   rw [c13_refines_reference cfg pack lr hwf] at hs
   cases hs
   exact answerWith_upBody _ _ _ _ _ hok
+
+/-! ## The host as written: a port that is spelled out, the default port of the scheme included -/
+
+/-- **Same host, hostname and port.** For a covered logical request every entry point creates a view whose
+`URL.Host` is the host as the client wrote it (the `Host` line of the HTTP message, the `host` attribute Envoy
+delivers), so `URL.Hostname()` and `URL.Port()` (`net/url`'s `splitHostPort`) are the parts of *that* string, and
+`Header("Host")` is the same string — for every host: with or without a port, whatever the port's number, whatever
+the scheme. No entry point normalises the host. -/
+theorem c13_same_host_and_port (D : Decoder) (level : LogLevel) (pack : Bool) {I : Impl} (lr : LReq)
+    (hwf : Spec.covered I lr = true) (ep : EP) :
+    (mkCtx I D level pack ep lr).map (fun e =>
+        (e.ctx.fresh.url.host, e.ctx.fresh.url.hostname, e.ctx.fresh.url.port, e.funcs.header b!"Host")) =
+      some (lr.host, (splitHostPort lr.host).1, (splitHostPort lr.host).2, lr.host) := by
+  rw [c13_same_view D level pack lr hwf ep]
+  have hk : canonKey b!"Host" = hostKey := by decide
+  simp [Spec.obj, Spec.url, URLv.hostname, URLv.port, Spec.funcs, Spec.header, hk]
+
+/-- **A port that is spelled out is shown, whatever its number.** If the client wrote `name:port` (a port of digits:
+`:8443`, but just as well `:80` over http or `:443` over https, which name the default port of the scheme), every
+entry point shows the pipeline that very host, `Hostname()` = `name` (without the brackets of an IPv6 literal) and
+`Port()` = `port`. `name` is arbitrary (it may contain colons). -/
+theorem c13_spelled_out_port_is_kept (D : Decoder) (level : LogLevel) (pack : Bool) {I : Impl} (lr : LReq)
+    (hwf : Spec.covered I lr = true) (ep : EP) (name port : Bytes) (hh : lr.host = name ++ ':' :: port)
+    (hd : port.all isDigitA = true) :
+    (mkCtx I D level pack ep lr).map (fun e =>
+        (e.ctx.fresh.url.host, e.ctx.fresh.url.hostname, e.ctx.fresh.url.port, e.funcs.header b!"Host")) =
+      some (name ++ ':' :: port, stripBrackets name, port, name ++ ':' :: port) := by
+  rw [c13_same_host_and_port D level pack lr hwf ep, hh, splitHostPort_port name port hd]
+
+/-- the request of `witnessReq` (https) with the default port of its scheme spelled out, and over http with `:80` -/
+def witnessPort443 : LReq := { witnessReq with host := b!"shop.example.com:443" }
+def witnessPort80 : LReq := { witnessReq with tls := false, host := b!"[2001:db8::1]:80" }
+
+example : Spec.covered Impl.fixed witnessPort443 = true ∧ Spec.covered Impl.fixed witnessPort80 = true ∧
+    witnessPort443.scheme = b!"https" ∧ witnessPort80.scheme = b!"http" ∧
+    witnessPort443.host = b!"shop.example.com" ++ ':' :: b!"443" ∧ (b!"443").all isDigitA = true ∧
+    splitHostPort witnessPort443.host = (b!"shop.example.com", b!"443") ∧
+    splitHostPort witnessPort80.host = (b!"2001:db8::1", b!"80") ∧
+    splitHostPort b!"shop.example.com" = (b!"shop.example.com", b!"") ∧
+    splitHostPort b!"[::1]" = (b!"::1", b!"") ∧ splitHostPort b!"a.example.com:" = (b!"a.example.com", b!"") ∧
+    splitHostPort b!"a.example.com:http" = (b!"a.example.com:http", b!"") := by decide
+
+/-- **Every mechanism reads the host as written.** Whatever rule answers and at whichever entry point: the view a
+mechanism of the pipeline is shown has the host and the scheme of the logical request, so a template or a CEL
+expression over `Request.URL.Host`, `Request.URL.Hostname()` or `Request.URL.Port()` yields the parts of the host as the
+client wrote it — the same value at all three entry points. -/
+theorem c13_mechanisms_read_the_written_host (cfg : Cfg) (pack : Bool) {I : Impl} (lr : LReq)
+    (hwf : Spec.covered I lr = true) (ep : EP) (out : Outcome) (s : Seen) (hs : serve I cfg pack ep lr = some out)
+    (hseen : out.seen = some s) (F : Funcs) :
+    Probe.tmpl s.obj F .host = lr.host ∧ Probe.tmpl s.obj F .hostname = (splitHostPort lr.host).1 ∧
+    Probe.tmpl s.obj F .port = (splitHostPort lr.host).2 ∧ Probe.tmpl s.obj F .scheme = lr.scheme := by
+  rw [c13_refines_reference cfg pack lr hwf ep] at hs
+  cases hs
+  have hview : (Spec.serve cfg lr).view = some s.obj := by
+    simp only [Spec.delivered, answerWith_seen] at hseen
+    cases hv : (Spec.serve cfg lr).view with
+    | none => simp [hv] at hseen
+    | some o => simp [hv] at hseen; rw [← hseen]
+  obtain ⟨hh, hsch⟩ := serve_view_host cfg lr s.obj hview
+  simp [Probe.tmpl, URLv.hostname, URLv.port, hh, hsch]
+
+/-! ## The configured buffer limits -/
+
+/-- **The answer does not depend on `buffer_limit`.** `serve.decision.buffer_limit` / `serve.proxy.buffer_limit` bound
+what the `net/http` servers read for the request line and the header block (`headerBudget`); a request they hand to
+the handler chain (`reachesChain`; the Envoy gRPC service is handed every request) is answered in the same way under any
+two configurations of the limits: same request context, same decision, view, headers, cookies and payload for the
+upstream side. For every implementation variant, request (covered or not, body of any length), rule set and entry
+point. -/
+theorem c13_answer_independent_of_buffer_limit (I : Impl) (cfg : Cfg) (l : Limits) (pack : Bool) (ep : EP) (lr : LReq)
+    (h1 : reachesChain l ep lr = true) (h2 : reachesChain cfg.limits ep lr = true) :
+    listen I { cfg with limits := l } pack ep lr = listen I cfg pack ep lr ∧
+    serve I { cfg with limits := l } pack ep lr = serve I cfg pack ep lr := by
+  refine ⟨?_, rfl⟩
+  simp only [listen, h1, h2, if_true]
+  rfl
+
+/-- the body does not count for the admission: only the request line and the header block do -/
+theorem c13_admission_ignores_body (l : Limits) (ep : EP) (lr : LReq) (b : Option Bytes) :
+    reachesChain l ep { lr with body := b } = reachesChain l ep lr := rfl
+
+/-- **The body is not bounded by `buffer_limit.read`.** For a covered request whose head fits the configured limit and
+whose body `b` is an arbitrary non-empty byte string — in particular one (far) longer than `buffer_limit.read` —
+every entry point answers as the reference semantics says, shows the pipeline `b` decoded according to the
+`Content-Type` of the request and holds exactly `b` as the payload for the upstream. -/
+theorem c13_body_not_bounded_by_read_limit (cfg : Cfg) (pack : Bool) {I : Impl} (lr : LReq)
+    (hwf : Spec.covered I lr = true) (ep : EP) (hfit : Spec.fits cfg.limits lr = true)
+    (b : Bytes) (hb : lr.body = some b) (hne : b ≠ []) :
+    listen I cfg pack ep lr = some (some (Spec.delivered cfg.respond lr ep (Spec.serve cfg lr))) ∧
+    (mkCtx I cfg.D cfg.logLevel pack ep lr).map (·.funcs.body) =
+      some (decodeBody cfg.D (Spec.header lr b!"Content-Type") b) ∧
+    (mkCtx I cfg.D cfg.logLevel pack ep lr).map (·.payload) = some b := by
+  have hadm : reachesChain cfg.limits ep lr = true := by
+    simp only [Spec.fits] at hfit
+    simp [reachesChain, hfit]
+  refine ⟨?_, c13_same_body cfg.D cfg.logLevel pack lr hwf ep b hb hne⟩
+  simp only [listen, hadm, if_true, c13_refines_reference cfg pack lr hwf ep]
+
+/-- the documented defaults (4 KiB each): the head of `witnessBig` fits, its body is 300 011 bytes long -/
+example : Spec.fits { read := 4096, write := 4096 } witnessBig = true ∧ witnessBig.headLength = 143 ∧
+    headerBudget { read := 4096, write := 4096 } = 8192 ∧ headerBudget {} = 1052672 ∧
+    (bodyOf 300000).length > 4096 := by
+  refine ⟨by decide, by decide, by decide, by decide, ?_⟩
+  rw [bodyOf_length]
+  omega
+
+/-- a head that does not fit is refused by the HTTP based services and decided by the Envoy service: outside the
+    statement (`Spec.fits`) -/
+example (v : Bytes) (hv : v.length = 5000) :
+    let lr : LReq := { witnessReq with headers := [(b!"X-Pad", v)] }
+    reachesChain { read := 512 } .decision lr = false ∧ reachesChain { read := 512 } .proxy lr = false ∧
+    reachesChain { read := 512 } .envoy lr = true ∧ reachesChain {} .decision lr = true := by
+  simp [reachesChain, LReq.headLength, LReq.target, headerBudget, witnessReq, hv]
 
 /-! ## Known findings (kept in the model; the statements above say exactly where they bite) -/
 
